@@ -72,6 +72,10 @@ func genLexText(t *rapid.T) string {
 			sb.WriteString(" ")
 		}
 	}
+	if rapid.IntRange(0, 7).Draw(t, "long") == 0 {
+		// long inputs: buffers and thresholds of the transactional lexer depend on how far it has read
+		return strings.Repeat(sb.String()+" x ", rapid.SampledFrom([]int{40, 200, 600, 1500}).Draw(t, "repeat"))
+	}
 	return sb.String()
 }
 
@@ -112,6 +116,20 @@ func c13LexerProp(rec *ev.Recorder) func(t *rapid.T) {
 				}
 				if has {
 					cursor++
+				}
+			},
+			"run": func(t *rapid.T) {
+				k := rapid.SampledFrom([]int{3, 30, 300, 1023, 1024, 1025, 2049}).Draw(t, "k")
+				if cursor+1 >= len(model) || cursor >= 0 && model[cursor].err != "" {
+					t.Skip("nothing to read")
+				}
+				for ; k > 0 && cursor+1 < len(model) && (cursor < 0 || model[cursor].err == ""); k-- {
+					if !tl.Next() {
+						fail(t, "C13", "tlexer", map[string]any{"src": src, "ops": append(ops, "next")}, "Next()=false at cursor %d of %d after %d operations", cursor, len(model), len(ops))
+					}
+					ops = append(ops, "next")
+					cursor++
+					check()
 				}
 			},
 			"snapshot": func(t *rapid.T) {
